@@ -392,6 +392,15 @@ func (t *TOTP) PostValidate(w http.ResponseWriter, r *http.Request) error {
 	// In the case where we care about re-using codes, validate will have set
 	// this and we need to preserve it. Normally there's no database hit
 	// required because we are only reading the secret and validating.
+	// This step completes a login: give the modules that guard logins (lock,
+	// confirm) their say, the account may have been locked since the first step.
+	r = r.WithContext(context.WithValue(r.Context(), authboss.CTXKeyUser, user))
+	if handled, err := t.Authboss.Events.FireBefore(authboss.EventAuth, w, r); err != nil {
+		return err
+	} else if handled {
+		return nil
+	}
+
 	if _, ok := user.(UserOneTime); ok {
 		if err = t.Authboss.Config.Storage.Server.Save(r.Context(), user); err != nil {
 			return err
